@@ -163,8 +163,12 @@ def _extract_omega_delta_phi(
             ):
                 raise ValueError(f"Input {name} has non-zero imaginary part.")
 
-            pchip = PCHIP1D(t_grid, signal.real)
-            data_mid[:, q_pos] = pchip(t_mid)
+            if t_grid.numel() == 1:
+                # A 1 ns sequence has a single sample: nothing to interpolate.
+                data_mid[:, q_pos] = signal.real[0]
+            else:
+                pchip = PCHIP1D(t_grid, signal.real)
+                data_mid[:, q_pos] = pchip(t_mid)
             if name == "amp":
                 data_mid[-1, q_pos] = torch.where(
                     data_mid[-1, q_pos] > 0,
